@@ -15,8 +15,8 @@
 (***************************************************************************)
 EXTENDS VFRead, TLC
 CONSTANTS MaxLinks, Shapes, PPPs, S0s, ETs, Muxes, BIdx, Spans, Dmg, PLen, ReadLens, MaxCalls, Ops, DiscardVi, Streaming, PinSer, PinBos
-VARIABLES lay, file, vf, dl, last, ncalls, nxt, dmg          \* nxt: ghost, [link, lin] = the decode-space sample that must be handed out next (read-through only)
-vars == <<lay, file, vf, dl, last, ncalls, nxt, dmg>>
+VARIABLES lay, file, vf, dl, last, ncalls, nxt, dmg, taint          \* nxt: ghost, [link, lin] = the decode-space sample that must be handed out next (read-through only)
+vars == <<lay, file, vf, dl, last, ncalls, nxt, dmg, taint>>          \* taint: a callback failed during an earlier call and no seek has succeeded since
 K == [chunk |-> 4, near |-> 3, read |-> 2, backup |-> "begin", handover |-> "refetch", clamp |-> TRUE, discardvi |-> DiscardVi]
 BCat == << <<4, 8>>, <<4, 16>>, <<8, 16>> >>          \* block sizes a link can have (BIdx selects)
 WS == << <<0, 0, 0, 0>>, <<0, 1, 1, 0, 0>>, <<1, 1, 0, 1>>, <<0, 0>>, <<1, 0, 0, 0, 1, 1>>, <<0, 1, 0>> >>
@@ -74,8 +74,8 @@ FileOf(ch, d) ==
       o == Open(PG, { VSer(i) : i \in 1..Len(ch) }, K)
   IN [PG |-> PG, ok |-> o.ok, LT |-> o.links, BL |-> [i \in 1..Len(ch) |-> BCat[ch[i].b]]]
 NoDmg == [kind |-> "none", k |-> 0]
-NoOp == [op |-> "none", arg |-> 0, ret |-> 0, t0 |-> 0, due |-> [link |-> 1, lin |-> 0, on |-> FALSE], rs0 |-> 0, link0 |-> 0]
-Init == dmg = NoDmg /\ lay = <<>> /\ file = <<>> /\ vf = <<>> /\ dl = NoDelivery /\ last = NoOp /\ ncalls = 0 /\ nxt = [link |-> 1, lin |-> 0, on |-> FALSE]
+NoOp == [op |-> "none", arg |-> 0, ret |-> 0, t0 |-> 0, due |-> [link |-> 1, lin |-> 0, on |-> FALSE], rs0 |-> 0, link0 |-> 0, pos0 |-> 0]
+Init == taint = FALSE /\ dmg = NoDmg /\ lay = <<>> /\ file = <<>> /\ vf = <<>> /\ dl = NoDelivery /\ last = NoOp /\ ncalls = 0 /\ nxt = [link |-> 1, lin |-> 0, on |-> FALSE]
 Choose == /\ lay = <<>>
           /\ \E ch \in Chains : \E d \in {NoDmg} \cup { [kind |-> kd, k |-> k] : kd \in Dmg, k \in AudioIdx(Numbered(Flat(ch, 1))) } :
                LET f == FileOf(ch, d) IN
@@ -84,7 +84,7 @@ Choose == /\ lay = <<>>
                /\ nxt' = [link |-> 1, lin |-> A0(ch[1]), on |-> TRUE]
                /\ IF f.ok THEN LET o == IF Streaming THEN OpenedStreaming(f.PG, f.LT, f.BL) ELSE Opened(f.PG, f.LT, f.BL) IN vf' = [o.vf EXCEPT !.pinser = PinSer, !.pinbos = PinBos] /\ last' = [NoOp EXCEPT !.op = "open", !.ret = o.ret]
                   ELSE vf' = <<>> /\ last' = [NoOp EXCEPT !.op = "open", !.ret = -1]
-          /\ dl' = NoDelivery /\ ncalls' = 0
+          /\ dl' = NoDelivery /\ ncalls' = 0 /\ taint' = FALSE
 Live == lay # <<>> /\ file.ok /\ last.ret # -999 /\ ncalls < MaxCalls
 LinOf(d) == E(BCat[lay[d.link].b], WS[lay[d.link].shape], d.k - 1) + d.j
 \* the ghost of an uninterrupted read-through: after a delivery the next sample due; a seek switches it off
@@ -93,14 +93,22 @@ NxtAfter(op, r) ==
   ELSE IF r.dl.n = 0 \/ ~nxt.on \/ r.dl.hs = 1 THEN nxt
   ELSE LET c == lay[r.dl.link]  e == LinOf(r.dl) + r.dl.n IN
        IF e >= A0(c) + N(c) THEN [link |-> r.dl.link + 1, lin |-> IF r.dl.link < Len(lay) THEN A0(lay[r.dl.link + 1]) ELSE 0, on |-> TRUE] ELSE [link |-> r.dl.link, lin |-> e, on |-> TRUE]
-Step(op, arg, r) == /\ nxt' = NxtAfter(op, r) /\ vf' = r.vf /\ last' = [op |-> op, arg |-> arg, ret |-> r.ret, t0 |-> vf.off, due |-> nxt, rs0 |-> vf.rs, link0 |-> vf.link] /\ ncalls' = ncalls + 1 /\ UNCHANGED <<lay, file, dmg>>
+Step(op, arg, r) == /\ nxt' = NxtAfter(op, r) /\ vf' = [r.vf EXCEPT !.fault = FALSE]
+                    /\ taint' = (IF op \in {"readF", "rawF", "lapF", "rawS"} THEN TRUE ELSE IF op \in {"raw", "pcm", "page", "lap"} /\ r.ret = 0 THEN FALSE ELSE taint) /\ last' = [op |-> op, arg |-> arg, ret |-> r.ret, t0 |-> vf.off, due |-> nxt, rs0 |-> vf.rs, link0 |-> vf.link, pos0 |-> vf.pos] /\ ncalls' = ncalls + 1 /\ UNCHANGED <<lay, file, dmg>>
 DoRead == "read" \in Ops /\ Live /\ \E len \in ReadLens : LET r == Read(file.PG, file.LT, file.BL, vf, len) IN Step("read", len, r) /\ dl' = r.dl
 DoRaw == "raw" \in Ops /\ Live /\ \E p \in 0..DataEnd(file.PG) : LET r == RawSeek(file.PG, file.LT, file.BL, vf, p) IN Step("raw", p, r) /\ dl' = NoDelivery
 DoPcm == "pcm" \in Ops /\ Live /\ \E t \in 0..Total(file.LT) : LET r == PcmSeek(file.PG, file.LT, file.BL, vf, t, K) IN Step("pcm", t, r) /\ dl' = NoDelivery
 DoHalf == "half" \in Ops /\ Live /\ \E fl \in {0, 1} : LET r == HalfRate(file.PG, file.LT, file.BL, vf, fl, K) IN Step("half", fl, r) /\ dl' = NoDelivery
 DoLap == "lap" \in Ops /\ Live /\ \E t \in 0..Total(file.LT) : LET r == LapSeek(file.PG, file.LT, file.BL, vf, "pcm", t, K) IN Step("lap", t, r) /\ dl' = NoDelivery
+\* the same calls while the read callback fails (F), and a raw seek whose seek callback fails (S)
+Fv == [vf EXCEPT !.fault = TRUE]
+DoFault == "fault" \in Ops /\ Live /\
+  \/ LET r == Read(file.PG, file.LT, file.BL, Fv, 100) IN Step("readF", 100, r) /\ dl' = NoDelivery
+  \/ \E p \in 0..DataEnd(file.PG) : LET r == RawSeek(file.PG, file.LT, file.BL, Fv, p) IN Step("rawF", p, r) /\ dl' = NoDelivery
+  \/ \E p \in 0..DataEnd(file.PG) : LET r == RawSeekSeekFails(file.PG, file.LT, file.BL, vf, p) IN Step("rawS", p, r) /\ dl' = NoDelivery
+  \/ \E t \in 0..Total(file.LT) : LET r == LapSeek(file.PG, file.LT, file.BL, Fv, "raw", 0, K) IN Step("lapF", t, r) /\ dl' = NoDelivery
 DoPage == "page" \in Ops /\ Live /\ \E t \in 0..Total(file.LT) : LET r == PcmSeekPage(file.PG, file.LT, file.BL, vf, t, K) IN Step("page", t, r) /\ dl' = NoDelivery
-Next == Choose \/ DoRead \/ DoRaw \/ DoPcm \/ DoPage \/ DoHalf \/ DoLap
+Next == Choose \/ DoRead \/ DoRaw \/ DoPcm \/ DoPage \/ DoHalf \/ DoLap \/ DoFault
 Spec == Init /\ [][Next]_vars
 
 Chosen == lay # <<>>
@@ -118,7 +126,7 @@ NoLoopBoundHit == last.ret # -999
 OpenOK == Chosen => /\ file.ok /\ Len(file.LT) = Len(lay) /\ \A i \in 1..Len(lay) : file.LT[i].len = N(lay[i])
                     /\ (last.op = "open" => last.ret = 0 /\ vf.off = 0)
 \* what a read hands out is what the stand-alone decode of the link has at the position the handle reported before
-PositionTruth == Chosen /\ ~Streaming /\ dl.n > 0 /\ dl.hs = 0 =>
+PositionTruth == Chosen /\ ~Streaming /\ ~taint /\ dl.n > 0 /\ dl.hs = 0 =>
   LET c == lay[dl.link]  ws == WS[c.shape]  lin == E(BCat[c.b], ws, dl.k - 1) + dl.j  t == dl.t0 - StartOf(dl.link) IN
   /\ dl.k >= 2 /\ t >= 0 /\ t + dl.n <= N(c)
   /\ lin = A0(c) + t
@@ -129,19 +137,25 @@ PositionTruthHalf == Chosen /\ ~Streaming /\ dl.n > 0 /\ dl.hs = 1 =>
   /\ dl.k >= 2 /\ t >= -1 /\ t + 2 * dl.n <= N(c) + 2
   /\ linh = (A0(c) + t) \div 2 \/ (linh = (A0(c) + t + 1) \div 2 /\ (A0(c) + t) % 2 = 1)
 \* reading on without a seek hands out every sample of every link exactly once and in order (seekable and streaming), and ends when all are out
-InOrder == Chosen /\ last.op = "read" /\ last.due.on /\ dl.hs = 0 =>
+InOrder == Chosen /\ ~taint /\ last.op = "read" /\ last.due.on /\ dl.hs = 0 =>
   IF dl.n > 0 THEN dl.link = last.due.link /\ LinOf(dl) = last.due.lin ELSE last.due.link = Len(lay) + 1
-ReadContinues == last.op = "read" /\ dl.n > 0 /\ last.t0 # -1 => dl.t0 = last.t0
-ReadOutcome == Chosen /\ ~Streaming /\ last.op = "read" => /\ last.ret >= 0 /\ last.ret = dl.n
+ReadContinues == ~taint /\ last.op = "read" /\ dl.n > 0 /\ last.t0 # -1 => dl.t0 = last.t0
+ReadOutcome == Chosen /\ ~Streaming /\ ~taint /\ last.op = "read" => /\ last.ret >= 0 /\ last.ret = dl.n
                                              /\ (last.ret = 0 => vf.off = Total(file.LT))
                                              /\ (last.t0 = Total(file.LT) => last.ret = 0)
                                              /\ (last.t0 >= 0 /\ last.t0 < Total(file.LT) => last.ret > 0)
+\* C12 in the model: while a callback fails the call in progress answers with a count, end of file or a documented code; and (the other invariants,
+\* which hold again from the first seek that succeeds afterwards) a seek to any position and the reads behind it behave as on a handle that never failed
+FaultOutcome == Chosen /\ last.op \in {"readF", "rawF", "lapF", "rawS"} =>
+  /\ last.ret # -999
+  /\ (last.ret >= 0 \/ last.ret \in {OV_EOF, OV_EINVAL, OV_EBADLINK, -128})
 HalfOutcome == Chosen /\ last.op = "half" => last.ret = 0 /\ vf.hs = last.arg /\ (last.t0 >= 0 => vf.off <= last.t0 /\ vf.off >= last.t0 - 2)
 \* a lapped seek lands where the plain seek lands; it may end with OV_EOF where there is nothing behind the target to prime the lap with
 LapOutcome == Chosen /\ last.op = "lap" =>
   \/ (last.ret = 0 /\ vf.off = last.arg)
   \/ (last.ret = OV_EOF /\ vf.off = Total(file.LT))                                                          \* sought, and no audio follows the target
   \/ (last.ret = OV_EOF /\ last.rs0 < INITSET /\ vf.off = last.t0 /\ last.t0 = SumLen(file.LT, last.link0))     \* no decoder, and at the end of the link the handle is in
+  \/ (last.ret = OV_EOF /\ last.rs0 < INITSET /\ vf.off = last.t0 /\ last.t0 = -1 /\ vf.pos >= DataEnd(file.PG))   \* no decoder, position unknown (a seek failed), and nothing of the stream between the byte cursor and the end of the file
 SeekOutcome == Chosen /\ last.op \in {"raw", "pcm", "page"} =>
   /\ last.ret = 0
   /\ vf.off >= 0 /\ vf.off <= Total(file.LT)
